@@ -426,7 +426,20 @@ def _query(sol, getter, ident):
 
 # ------------------------------------------------------------------ declarative front end
 def run_declarative(res):
-    from CircuitCalculator.SimpleSimulation.schematic import create_schematic
+    from CircuitCalculator.SimpleSimulation.schematic import create_schematic as _cs
+    import warnings
+
+    def create_schematic(d):
+        try:
+            with warnings.catch_warnings():
+                warnings.simplefilter("ignore")
+                return _cs(d)
+        finally:
+            try:
+                import matplotlib.pyplot as plt
+                plt.close("all")
+            except Exception:
+                pass
     base = {"unit": 7, "elements": [
         {"type": "voltage_source", "name": "V1", "V": 1, "direction": "up"},
         {"type": "resistor", "name": "R1", "R": 10, "direction": "right"},
